@@ -233,6 +233,8 @@ RAW_EVENTS = [
     ('metavar 0', ev_push('metavar', 0)), ('metavar 1', ev_push('metavar', 1)),
     ('metavar 0 e_fresh x0', ev_push('metavar', 0, E0)), ('metavar 1 s_fresh X0', ev_push('metavar', 1, (), S0)),
     ('metavar 0 positive X0', ev_push('metavar', 0, (), (), S0)),
+    ('metavar 0 holes x1', ev_push('metavar', 0, (), (), (), (), (P.EVar(1),))),
+    ('metavar 1 negative X0 holes x1 x0', ev_push('metavar', 1, (), (), (), S0, (P.EVar(1), P.EVar(0)))),
     ('implies', ev_binary('implies')), ('app', ev_binary('app')),
     ('exists 0', ev_binder('exists', 0)), ('exists 1', ev_binder('exists', 1)), ('mu 0', ev_binder('mu', 0)),
     ('esubst 0', ev_subst('esubst', 0)), ('esubst 1', ev_subst('esubst', 1)), ('ssubst 0', ev_subst('ssubst', 0)),
